@@ -8,50 +8,12 @@ Model: `Simaple.Model.Dsl` (hand-written lexer + parser for the Lark grammar of
 All statements are at CHARACTER level (the lexer lemma `lex_unlex` is proved for arbitrary Unicode
 content of names and comments).
 -/
-import Simaple.Proofs.DslRuntime
+import Simaple.Proofs.DslProduced
 
 namespace Simaple.Props.C14
 open Simaple.Dsl
 
-/-! ## the hypothesis on numbers and the parser's range -/
-
-/-- `repr(x)` is a complete `SIGNED_NUMBER` token and `float(repr(x)) = x` (true of every finite
-Python float; false for `inf`/`nan`, known finding F16) -/
-structure NumOk (ν : NumModel) (x : ν.N) : Prop where
-  tok : numTokOk (ν.repr x) = true
-  roundtrip : ν.ofTok (ν.repr x) = x
-
-/-- the operations `TreeToOperation` can build: command a `WORD`, name the inside of an
-`ESCAPED_STRING` (any text without newline in which every `"` is escaped and that does not end in an odd
-run of backslashes), time a finite float or absent; `expr` as built by the transformer -/
-inductive InRange (ν : NumModel) : Operation ν → Prop
-  | full {c n : Text} {t : ν.N} : wordOk c = true → nameOk n = true → NumOk ν t → InRange ν (mkFull ν c n t)
-  | time {c : Text} {t : ν.N} : wordOk c = true → NumOk ν t → InRange ν (mkTime ν c t)
-  | skill {c n : Text} : wordOk c = true → nameOk n = true → InRange ν (mkSkill ν c n)
-
-/-- the raw (token-level) command of an operation in range -/
-theorem InRange.raw {ν : NumModel} {o : Operation ν} (h : InRange ν o) :
-    ∃ r : RawCmd, rawOk r = true ∧ r.isOp = true ∧ renderRaw r = o.expr ∧ interp ν r = .op o := by
-  cases h with
-  | @full c n t hc hn ht =>
-    refine ⟨.full c n (ν.repr t), by simp [rawOk, hc, hn, ht.tok], rfl, rfl, ?_⟩
-    simp [interp, ht.roundtrip]
-  | @time c t hc ht =>
-    refine ⟨.time c (ν.repr t), by simp [rawOk, hc, ht.tok], rfl, rfl, ?_⟩
-    simp [interp, ht.roundtrip]
-  | @skill c n hc hn =>
-    exact ⟨.skill c n, by simp [rawOk, hc, hn], rfl, rfl, rfl⟩
-
 /-! ## parse ∘ render -/
-
-/-- a single command in the canonical layout parses to itself (also for the command word `x`) -/
-theorem parse_single (r : RawCmd) (h : rawOk r = true) : parseRaw (renderRaw r) = .ok [r] := by
-  have hsep : separated (rawToks r) = true := by
-    have := separated_rawToks h (R := []) rfl (Or.inl rfl)
-    simpa using this
-  unfold parseRaw parseRawWith
-  rw [← unlex_rawToks, lex_unlex _ hsep]
-  cases r <;> rfl
 
 /-- **parse_render**: every operation in the parser's range re-parses, from its own `expr`, to exactly
 itself (same command, name, time and `expr`). -/
@@ -83,25 +45,45 @@ theorem parse_render_console (ν : NumModel) {s : Text} (h : nameOk s = true) :
   simp only [renderRaw] at this
   rw [this]; rfl
 
-/-! ## `xN <op>` -/
+/-- every operation the parser returns — from ANY text — lies in the parser's range, as soon as its
+time (if any) is a float that prints and reads back (`NumOk`; i.e. it is finite) -/
+theorem produced_in_range (ν : NumModel) {s : Text} {cmds : List (Command ν)}
+    (h : parseText ν s = .ok cmds) {o : Operation ν} (ho : Command.op o ∈ cmds)
+    (hnum : ∀ t, o.time = some t → NumOk ν t) : InRange ν o := by
+  unfold parseText at h
+  cases hp : parseRaw s with
+  | error e => simp [hp, Except.map] at h
+  | ok rs =>
+    simp only [hp, Except.map, Except.ok.injEq] at h
+    subst h
+    obtain ⟨r, hr, hint⟩ := List.mem_map.mp ho
+    have hok := parseRawWith_range hp r hr
+    cases r with
+    | full c n t =>
+      simp only [interp, Command.op.injEq] at hint
+      subst hint
+      simp only [rawOk, Bool.and_eq_true] at hok
+      exact InRange.full hok.1.1 hok.1.2 (hnum _ rfl)
+    | skill c n =>
+      simp only [interp, Command.op.injEq] at hint
+      subst hint
+      simp only [rawOk, Bool.and_eq_true] at hok
+      exact InRange.skill hok.1 hok.2
+    | time c t =>
+      simp only [interp, Command.op.injEq] at hint
+      subst hint
+      simp only [rawOk, Bool.and_eq_true] at hok
+      exact InRange.time hok.1 (hnum _ rfl)
+    | console s => simp [interp] at hint
 
-theorem separated_multLine {m : Text} {k : Int} (hm : pyInt m = some k) {r : RawCmd}
-    (hr : rawOk r = true) : separated (toksOf [] [multLine m r]) = true := by
-  obtain ⟨c, cs, rfl, hc, hnum⟩ := pyInt_shape hm
-  obtain ⟨d, hd, hw⟩ := rawToks_head hr []
-  have hsepr : separated (rawToks r) = true := by
-    have := separated_rawToks hr (R := []) rfl (Or.inl rfl)
-    simpa using this
-  have htoks : toksOf [] [multLine (c :: cs) r] =
-      Tok.word ['x'] :: Tok.num (c :: cs) :: Tok.white [' '] :: rawToks r := by
-    cases r <;> rfl
-  rw [htoks]
-  simp only [separated, unlex, Bool.and_eq_true]
-  refine ⟨?_, ?_, ?_, hsepr⟩
-  · simp [okTok, wordOk, unlexTok, nextOk, hc]
-  · simp [okTok, hnum, unlexTok, nextOk]; decide
-  · simp only [List.append_nil] at hd
-    simp [okTok, hd, nextOk, hw, show isWsChar ' ' = true by decide]
+/-- **the first sentence of the property**: every operation the plan parser produces carries a
+textual form (`expr`) that parses back to exactly that operation (times finite: `NumOk`) -/
+theorem reparse_of_parsed (ν : NumModel) {s : Text} {cmds : List (Command ν)}
+    (h : parseText ν s = .ok cmds) {o : Operation ν} (ho : Command.op o ∈ cmds)
+    (hnum : ∀ t, o.time = some t → NumOk ν t) : parseText ν o.expr = .ok [.op o] :=
+  parse_render ν (produced_in_range ν h ho hnum)
+
+/-! ## `xN <op>` -/
 
 /-- **multiplier**: `x<m> <op>` (with `m` an integer literal `[+-]?[0-9]+`, as `int()` accepts) is that
 operation `m` times; zero and negative multipliers give no operation at all. -/
@@ -223,58 +205,6 @@ theorem layout_never_changes_commands (base : Pat) (lead : List GTok) (ls : List
 
 /-! ## whole plans -/
 
-/-- a command the writer may print: an operation in range whose command word is not `x`
-(a line `x 3.0` followed by another line is ambiguous in the grammar), or a `!debug` line -/
-inductive CmdInRange (ν : NumModel) : Command ν → Prop
-  | op {o : Operation ν} : InRange ν o → o.command ≠ ['x'] → CmdInRange ν (.op o)
-  | console {s : Text} : nameOk s = true → CmdInRange ν (.console s)
-
-theorem CmdInRange.raw {ν : NumModel} {c : Command ν} (h : CmdInRange ν c) :
-    ∃ r : RawCmd, rawOk r = true ∧ rawXfree r = true ∧ renderRaw r = renderCmd c ∧ interp ν r = c := by
-  cases h with
-  | @op o ho hx =>
-    cases ho with
-    | @full c n t hc hn ht =>
-      refine ⟨.full c n (ν.repr t), by simp [rawOk, hc, hn, ht.tok], rfl, rfl, ?_⟩
-      simp [interp, ht.roundtrip]
-    | @time c t hc ht =>
-      refine ⟨.time c (ν.repr t), by simp [rawOk, hc, ht.tok], ?_, rfl, ?_⟩
-      · simpa [rawXfree, mkTime] using hx
-      · simp [interp, ht.roundtrip]
-    | @skill c n hc hn =>
-      exact ⟨.skill c n, by simp [rawOk, hc, hn], rfl, rfl, rfl⟩
-  | @console s hs => exact ⟨.console s, by simpa [rawOk] using hs, rfl, rfl, rfl⟩
-
-theorem cmds_raw {ν : NumModel} : ∀ (cmds : List (Command ν)), (∀ c ∈ cmds, CmdInRange ν c) →
-    ∃ rs : List RawCmd, (∀ r ∈ rs, rawOk r = true) ∧ (∀ r ∈ rs, rawXfree r = true) ∧
-      rs.map renderRaw = cmds.map renderCmd ∧ rs.map (interp ν) = cmds ∧ rs.length = cmds.length
-  | [], _ => ⟨[], by simp, by simp, rfl, rfl, rfl⟩
-  | c :: cs, h => by
-    obtain ⟨r, h1, h2, h3, h4⟩ := (h c (by simp)).raw
-    obtain ⟨rs, g1, g2, g3, g4, g5⟩ := cmds_raw cs (fun x hx => h x (List.mem_cons_of_mem _ hx))
-    refine ⟨r :: rs, ?_, ?_, by simp [h3, g3], by simp [h4, g4], by simp [g5]⟩
-    · intro x hx; rcases List.mem_cons.mp hx with rfl | hx
-      · exact h1
-      · exact g1 x hx
-    · intro x hx; rcases List.mem_cons.mp hx with rfl | hx
-      · exact h2
-      · exact g2 x hx
-
-theorem canonLine_lead_none (r : RawCmd) (after : List GTok) :
-    gapFits (leadPat patNone (canonLine r after)) [] = true := by
-  cases r <;> rfl
-
-theorem canonLine_lead_hdr (r : RawCmd) (after : List GTok) :
-    gapFits (leadPat patHdr (canonLine r after)) [.white ['\n']] = true := by
-  cases r <;> rfl
-
-theorem canonLines_head_is_canon : ∀ (rs : List RawCmd) (l : DLine) (ls : List DLine),
-    canonLines rs = l :: ls → ∃ r after, l = canonLine r after
-  | [], _, _, h => by simp [canonLines] at h
-  | [r], _, _, h => by simp only [canonLines, List.cons.injEq] at h; exact ⟨r, [], h.1.symm⟩
-  | r :: r' :: rs', _, _, h => by
-    simp only [canonLines, List.cons.injEq] at h; exact ⟨r, _, h.1.symm⟩
-
 /-- the printed body (one command per line) parses back to the commands -/
 theorem body_round_trip (ν : NumModel) (cmds : List (Command ν)) (hne : cmds ≠ [])
     (hr : ∀ c ∈ cmds, CmdInRange ν c) :
@@ -365,5 +295,125 @@ theorem plan_round_trip (ν : NumModel) (Y : YamlModel) (dumped : Text) (m : Y.M
   simp only [List.cons_append] at hsplit hY ⊢
   rw [if_neg (by decide), hsplit]
   simp only [Option.map_some, hp, hY, hint]
+
+/-! ## non-vacuity: concrete instances satisfy every hypothesis
+
+`tokNum` is the number model "a float is its decimal token" (`ofTok = repr = id`); for it `NumOk x` is
+just "x is a number token".  The real Python instance (`float`, `repr`) is validated by the harness. -/
+
+deriving instance DecidableEq for Except
+
+/-- `CAST "라이트닝 \"스피어\" #1" 2e+2` -/
+def exOp : Operation tokNum :=
+  mkFull tokNum "CAST".toList "라이트닝 \\\"스피어\\\" #1".toList "2e+2".toList
+
+theorem exOp_inRange : InRange tokNum exOp :=
+  InRange.full (by decide) (by decide) ⟨by decide, rfl⟩
+
+example : parseText tokNum (renderText exOp) = .ok [.op exOp] := parse_render tokNum exOp_inRange
+
+/-- `x3 CAST …` -/
+example : parseText tokNum ('x' :: ['3'] ++ ' ' :: renderText exOp) = .ok [.op exOp, .op exOp, .op exOp] :=
+  multiplier tokNum exOp_inRange (m := ['3']) (k := 3) (by decide)
+
+/-- `x-2 CAST …` -/
+example : parseText tokNum ('x' :: ['-', '2'] ++ ' ' :: renderText exOp) = .ok [] :=
+  multiplier_nonpos tokNum exOp_inRange (m := ['-', '2']) (k := -2) (by decide) (by decide)
+
+/-- a layout with indentation, tabs, a trailing comment, empty lines, one whole-line comment, blank
+lines that hold blanks and tabs, CRLF, a multiplier line and a `!debug` line:
+```
+  # plan
+	USE	 "a b"  1.5 # first
+
+#note
+ 	
+  ELAPSE -.5e1␍
+␍
+x +2	CAST "#x"  
+!debug "dbg" #end
+``` -/
+def exLead : List GTok := [.white "  ".toList, .comment " plan".toList, .white "\n\t".toList]
+def exLines : List DLine :=
+  [ ⟨none, .full "USE".toList "a b".toList "1.5".toList, [.white "\t ".toList], [.white "  ".toList],
+      [.white " ".toList, .comment " first".toList, .white "\n\n".toList, .comment "note".toList,
+       .white "\n \t\n  ".toList]⟩,
+    ⟨none, .time "ELAPSE".toList "-.5e1".toList, [.white " ".toList], [],
+      [.white "\r\n\r\n".toList]⟩,
+    ⟨some ⟨"+2".toList, [.white " ".toList], [.white "\t".toList]⟩, .skill "CAST".toList "#x".toList,
+      [.white " ".toList], [], [.white "  \n".toList]⟩,
+    ⟨none, .console "dbg".toList, [.white " ".toList], [], [.white " ".toList, .comment "end".toList]⟩ ]
+
+example : unlex (toksOf exLead exLines) =
+    "  # plan\n\tUSE\t \"a b\"  1.5 # first\n\n#note\n \t\n  ELAPSE -.5e1\r\n\r\nx +2\tCAST \"#x\"  \n!debug \"dbg\" #end".toList := by
+  decide
+
+example : parseRaw (unlex (toksOf exLead exLines)) =
+    .ok [.full "USE".toList "a b".toList "1.5".toList, .time "ELAPSE".toList "-.5e1".toList,
+         .skill "CAST".toList "#x".toList, .skill "CAST".toList "#x".toList, .console "dbg".toList] :=
+  layout_irrelevant_partial exLead exLines (by decide) (by decide) (by decide)
+
+/-- a plan with header -/
+def exCmds : List (Command tokNum) :=
+  [.op exOp, .console "x".toList, .op (mkTime tokNum "ELAPSE".toList "210.0".toList)]
+
+example : parseRuntimeText tokNum rawYaml (renderPlanText "a: 1".toList exCmds) =
+    .ok ('-' :: '-' :: '-' :: '\n' :: "a: 1".toList ++ ['\n'], exCmds) :=
+  plan_round_trip tokNum rawYaml _ _ _ (by simp [exCmds]) rfl (by
+    intro c hc
+    simp only [exCmds, List.mem_cons, List.mem_nil_iff, or_false] at hc
+    rcases hc with rfl | rfl | rfl
+    · exact .op exOp_inRange (by decide)
+    · exact .console (by decide)
+    · exact .op (.time (by decide) ⟨by decide, rfl⟩) (by decide))
+
+/-! ## the excluded layouts are really rejected by the grammar (known finding F13); the accepted
+neighbours are accepted -/
+
+def castA (after : List GTok) : DLine := ⟨none, .skill "CAST".toList ['a'], [.white [' ']], [], after⟩
+def castB (after : List GTok) : DLine := ⟨none, .skill "CAST".toList ['b'], [.white [' ']], [], after⟩
+def dbgX (after : List GTok) : DLine := ⟨none, .console ['x'], [.white [' ']], [], after⟩
+
+/-- accepted: ONE whole-line comment between two operations -/
+example : unlex (toksOf [] [castA [.white ['\n'], .comment ['c'], .white ['\n']], castB []]) =
+    "CAST \"a\"\n#c\nCAST \"b\"".toList := by decide
+example : parseRaw (unlex (toksOf [] [castA [.white ['\n'], .comment ['c'], .white ['\n']], castB []])) =
+    .ok [.skill "CAST".toList ['a'], .skill "CAST".toList ['b']] :=
+  layout_irrelevant_partial _ _ (by decide) (by decide) (by decide)
+
+/-- rejected, `trailing-comment-line`: `CAST "a"\n#c` -/
+example : unlex (toksOf [] [castA [.white ['\n'], .comment ['c']]]) = "CAST \"a\"\n#c".toList := by decide
+example : parseRaw (unlex (toksOf [] [castA [.white ['\n'], .comment ['c']]])) = .error .syntax :=
+  layout_rejected patNone _ _ (by decide) (by decide) (by decide)
+
+/-- rejected, `trailing-blank-line`: `CAST "a"\n` -/
+example : parseRaw (unlex (toksOf [] [castA [.white ['\n']]])) = .error .syntax :=
+  layout_rejected patNone _ _ (by decide) (by decide) (by decide)
+
+/-- rejected, `comment-line-run`: `CAST "a"\n#c\n#d\nCAST "b"` -/
+example : unlex (toksOf [] [castA [.white ['\n'], .comment ['c'], .white ['\n'], .comment ['d'], .white ['\n']], castB []]) =
+    "CAST \"a\"\n#c\n#d\nCAST \"b\"".toList := by decide
+example : parseRaw (unlex (toksOf [] [castA [.white ['\n'], .comment ['c'], .white ['\n'], .comment ['d'], .white ['\n']], castB []])) =
+    .error .syntax :=
+  layout_rejected patNone _ _ (by decide) (by decide) (by decide)
+
+/-- rejected, `filler-before-console`: `CAST "a"\n#c\n!debug "x"` and `CAST "a"\n  \n!debug "x"`;
+accepted: `CAST "a"\n\n!debug "x"` -/
+example : parseRaw (unlex (toksOf [] [castA [.white ['\n'], .comment ['c'], .white ['\n']], dbgX []])) = .error .syntax :=
+  layout_rejected patNone _ _ (by decide) (by decide) (by decide)
+example : parseRaw (unlex (toksOf [] [castA [.white ['\n', ' ', ' ', '\n']], dbgX []])) = .error .syntax :=
+  layout_rejected patNone _ _ (by decide) (by decide) (by decide)
+example : parseRaw (unlex (toksOf [] [castA [.white ['\n', '\n']], dbgX []])) =
+    .ok [.skill "CAST".toList ['a'], .console ['x']] :=
+  layout_irrelevant_partial _ _ (by decide) (by decide) (by decide)
+
+/-- rejected, `trailing-tab`: `CAST "a"\t` -/
+example : parseRaw (unlex (toksOf [] [castA [.white ['\t']]])) = .error .syntax :=
+  layout_rejected patNone _ _ (by decide) (by decide) (by decide)
+
+/-- the grammar is ambiguous for `x <blanks> N` + line break + operation (excluded by `xfree`/`unamb`) -/
+example : parseRaw "x 3\nCAST \"a\"".toList = .error .ambiguous := by decide
+/-- a multiplier that is not an integer literal: `int()` raises -/
+example : parseRaw "x1.5 CAST \"a\"".toList = .error .valueError := by decide
 
 end Simaple.Props.C14
